@@ -89,9 +89,32 @@ def classify(body, local, depth=0):
     return res
 
 
-def result_producers(body):
+def always_err(F, fn, depth=0):
+    """A local function every result of which is an Err (e.g. the crate's err_exit_code helper)."""
+    b = F.bodies.get(fn) if F is not None else None
+    if b is None or depth > 3:
+        return False
+    seen = False
+    for bb in sorted(b.normal_blocks()):
+        for s in b.stmts(bb):
+            if s.get("k") == "assign" and s["p"]["l"] == 0 and not s["p"]["p"]:
+                r = s["r"]
+                if not (r.get("k") == "agg" and r.get("adt") == "std::result::Result" and r.get("vname") == "Err"):
+                    return False
+                seen = True
+        t = b.term(bb)
+        if t["k"] == "call" and t.get("dest") and t["dest"]["l"] == 0 and not t["dest"]["p"]:
+            c = t["callee"]
+            lc = c.get("resolved") if c.get("rlocal") else (c.get("def") if c.get("local") else None)
+            if not (lc and always_err(F, lc, depth + 1)):
+                return False
+            seen = True
+    return seen
+
+
+def result_producers(body, F=None):
     """Blocks in which the function's Result is produced other than by propagating/constructing an error:
-    `_0 = Ok(..)`, `_0 = <moved value>` or `_0 = call(..)` (anything but from_residual / Err(..))."""
+    `_0 = Ok(..)`, `_0 = <moved value>` or `_0 = call(..)` (anything but from_residual / Err(..) / an always-Err helper)."""
     out = []
     for bb in sorted(body.normal_blocks()):
         for s in body.stmts(bb):
@@ -103,7 +126,9 @@ def result_producers(body):
         t = body.term(bb)
         if t["k"] == "call" and t.get("dest") and t["dest"]["l"] == 0 and not t["dest"]["p"]:
             cn = strip_generics(t["callee"].get("def", ""))
-            if not cn.endswith("FromResidual::from_residual"):
+            c = t["callee"]
+            lc = c.get("resolved") if c.get("rlocal") else (c.get("def") if c.get("local") else None)
+            if not cn.endswith("FromResidual::from_residual") and not (lc and always_err(F, lc)):
                 out.append((bb, "call " + cn.split("::")[-1]))
     return out
 
